@@ -1,9 +1,7 @@
 """proxies used by props/c08.py (entitlement): a bit-vector flag value, a
-membership container with one symbolic Bool per candidate member, and a short
-symbolic string (tuple of symbolic characters over a finite alphabet, a character
-being a letter class plus an upper-case bit) together with a `str` subclass that
-lets `phrase in path` reach the solver when the phrase is symbolic and the path is
-concrete.
+membership container with one symbolic Bool per candidate member, a `str` subclass
+that lets string operations with a symbolic argument (an engine.sstr.SStr phrase)
+on a concrete path reach the solver, and a dict that can be asked for a symbolic key.
 
 Nothing here knows about aioslsk.  All proxies fail loudly (TypeError /
 AttributeError / HarnessError) when the code under test applies an operation that
@@ -12,7 +10,7 @@ from __future__ import annotations
 
 import z3
 
-from engine import symex
+from engine import symex, sstr
 from engine.symex import SBool, HarnessError
 
 
@@ -239,171 +237,28 @@ def members_has(container, name):
 
 
 # --------------------------------------------------------------------------
-# SPhrase: short string with symbolic characters;  PStr: concrete str that
-# understands `SPhrase in PStr`
+# strings: the server-excluded phrase is an engine.sstr.SStr (symbolic characters over a
+# finite alphabet; lower/upper/split/strip/regex through engine.sstr / engine.reshim).
+# PStr: a concrete str that understands a symbolic string as argument;  SymKeyDict: a
+# dict with plain str keys that can be asked for a symbolic key.
 # --------------------------------------------------------------------------
 
-class Alphabet:
-    """finite alphabet split into case classes: `cased` holds the lower-case form of
-    every letter that has a distinct 1:1 upper-case form, `uncased` the rest.  A
-    symbolic character is (class index: z3 Int, upper: z3 Bool | bool)."""
-
-    def __init__(self, cased: str, uncased: str):
-        for ch in cased:
-            if not (len(ch.upper()) == 1 and ch.upper() != ch and ch.upper().lower() == ch and ch.lower() == ch
-                    and ch.casefold() == ch and ch.upper().casefold() == ch):
-                raise HarnessError(f'{ch!r} has no clean 1:1 case pair')
-        for ch in uncased:
-            if ch.lower() != ch or ch.upper() != ch or ch.casefold() != ch:
-                raise HarnessError(f'{ch!r} is cased')
-        self.cased, self.uncased = cased, uncased
-        self.classes = cased + uncased
-        self.nc = len(cased)
-        self.index = {}
-        for k, ch in enumerate(self.classes):
-            self.index[ch] = (k, False)
-            if k < self.nc:
-                self.index[ch.upper()] = (k, True)
-
-    def __len__(self):
-        return len(self.classes)
-
-    def chars(self):
-        return self.classes + self.cased.upper()
-
-    def char(self, k: int, upper: bool) -> str:
-        ch = self.classes[k if 0 <= k < len(self.classes) else 0]
-        return ch.upper() if upper and k < self.nc else ch
-
-
-def _band(*xs):
-    out = []
-    for x in xs:
-        if x is True:
-            continue
-        if x is False:
-            return False
-        out.append(x)
-    if not out:
-        return True
-    return out[0] if len(out) == 1 else z3.And(*out)
-
-
-def _zb(x):
-    return z3.BoolVal(x) if isinstance(x, bool) else x
-
-
-def _bnot(x):
-    return (not x) if isinstance(x, bool) else z3.Not(x)
-
-
-class SPhrase:
-    """concrete length; each character = (class index expr, upper flag).  The creator
-    constrains 0 <= index < len(alphabet) and upper => index < alphabet.nc."""
-
-    def __init__(self, chars, alphabet: Alphabet):
-        self.chars = list(chars)
-        self.alphabet = alphabet
-        self._lower = None
-        self._upper = None
-        self._occ = {}
-
-    def lower(self):
-        if self._lower is None:
-            self._lower = SPhrase([(b, False) for b, _ in self.chars], self.alphabet)
-            self._lower._lower = self._lower
-        return self._lower
-
-    casefold = lower
-
-    def upper(self):
-        if self._upper is None:
-            self._upper = SPhrase([(b, b < self.alphabet.nc) for b, _ in self.chars], self.alphabet)
-            self._upper._upper = self._upper
-        return self._upper
-
-    def __len__(self):
-        return len(self.chars)
-
-    def __bool__(self):
-        return bool(self.chars)
-
-    def _char_is(self, j, ch):
-        """python bool or z3 Bool: character j equals the concrete character ch"""
-        hit = self.alphabet.index.get(ch)
-        if hit is None:
-            return False
-        k, up = hit
-        b, u = self.chars[j]
-        if k >= self.alphabet.nc:
-            return b == k
-        return _band(b == k, u if up else _bnot(u))
-
-    def __eq__(self, o):
-        if isinstance(o, str):
-            if len(o) != len(self.chars):
-                return False
-            r = _band(*[self._char_is(j, ch) for j, ch in enumerate(o)])
-            return r if isinstance(r, bool) else SBool(r)
-        if isinstance(o, SPhrase):
-            if len(o.chars) != len(self.chars):
-                return False
-            parts = []
-            for (b1, u1), (b2, u2) in zip(self.chars, o.chars):
-                parts.append(b1 == b2)
-                parts.append((u1 == u2) if isinstance(u1, bool) and isinstance(u2, bool) else (_zb(u1) == _zb(u2)))
-            r = _band(*parts)
-            return r if isinstance(r, bool) else SBool(r)
-        return False
-
-    def __ne__(self, o):
-        r = self.__eq__(o)
-        return (not r) if isinstance(r, bool) else ~r
-
-    def __hash__(self):
-        raise HarnessError('hash of a symbolic phrase')
-
-    def occurs_in(self, hay: str):
-        """python bool or z3 Bool: this phrase occurs in the concrete string `hay`"""
-        hay = str.__str__(hay)
-        r = self._occ.get(hay)
-        if r is not None:
-            return r
-        m, n = len(self.chars), len(hay)
-        if m == 0:
-            r = True
-        else:
-            alts = []
-            r = None
-            for i in range(0, n - m + 1):
-                a = _band(*[self._char_is(j, hay[i + j]) for j in range(m)])
-                if a is True:
-                    r = True
-                    break
-                if a is not False:
-                    alts.append(a)
-            if r is None:
-                r = False if not alts else (alts[0] if len(alts) == 1 else z3.Or(*alts))
-        self._occ[hay] = r
-        return r
-
-    def __repr__(self):
-        return '<SPhrase>'
-
-    __str__ = __repr__
-
-    def __format__(self, spec):
-        return '<SPhrase>'
+def _symbolic(x) -> bool:
+    return isinstance(x, sstr.SStr) or (isinstance(x, str) and sstr.has_sym(x))
 
 
 class PStr(str):
-    """a concrete str (same characters, real str behaviour) whose `in` operator
-    accepts a symbolic phrase on the left; lower/upper/casefold keep the wrapper"""
+    """a concrete str (same characters, real str behaviour).  Where CPython would hand a
+    foreign / placeholder-carrying argument to C code (`sub in s`, find, count, startswith,
+    split, replace ...), the call is answered by engine.sstr on the lifted string, i.e.
+    decided by the solver; lower/upper/casefold/strip keep the wrapper."""
+
+    def _s(self):
+        return sstr.SStr(tuple(str.__str__(self)))
 
     def __contains__(self, item):
-        if isinstance(item, SPhrase):
-            r = item.occurs_in(self)
-            return r if isinstance(r, bool) else bool(SBool(r))
+        if _symbolic(item):
+            return self._s().__contains__(sstr.lift(item))
         return str.__contains__(self, item)
 
     def lower(self):
@@ -415,30 +270,101 @@ class PStr(str):
     def casefold(self):
         return PStr(str.casefold(self))
 
-    def find(self, sub, *a):
-        if isinstance(sub, SPhrase):
-            raise TypeError('str.find with a symbolic phrase is not modelled')
-        return str.find(self, sub, *a)
+    def strip(self, *a):
+        return PStr(str.strip(self, *a))
 
-    def count(self, sub, *a):
-        if isinstance(sub, SPhrase):
-            raise TypeError('str.count with a symbolic phrase is not modelled')
-        return str.count(self, sub, *a)
+    def __eq__(self, o):
+        if _symbolic(o):
+            return self._s() == sstr.lift(o)
+        return str.__eq__(self, o)
+
+    def __ne__(self, o):
+        if _symbolic(o):
+            return self._s() != sstr.lift(o)
+        return str.__ne__(self, o)
+
+    __hash__ = str.__hash__
+
+
+def _delegate(name):
+    real = getattr(str, name)
+
+    def method(self, *a, **kw):
+        if any(_symbolic(x) or (isinstance(x, tuple) and any(_symbolic(y) for y in x)) for x in a):
+            return getattr(self._s(), name)(*a, **kw)
+        return real(self, *a, **kw)
+    method.__name__ = name
+    return method
+
+
+for _n in ('find', 'rfind', 'index', 'rindex', 'count', 'startswith', 'endswith', 'split', 'rsplit', 'partition',
+           'rpartition', 'replace', 'removeprefix', 'removesuffix'):
+    setattr(PStr, _n, _delegate(_n))
+
+
+class SymKeyDict(dict):
+    """dict with plain str keys (real hashing for them) that can also be asked for a symbolic
+    key: `k in d` is ONE solver decision "k equals some key of that length"; `d[k]` / `get`
+    decide key by key.  Every outcome is a fork through the engine, so each path has one fixed
+    answer, exactly the answer CPython gives for every concrete key satisfying the path."""
+
+    def _candidates(self, key):
+        n = len(key)
+        return [k for k in dict.keys(self) if isinstance(k, str) and len(k) == n]
+
+    def __contains__(self, key):
+        if not _symbolic(key):
+            return dict.__contains__(self, key)
+        key = sstr.lift(key)
+        return sstr._decide(sstr._or([key._eq_at(0, tuple(k)) for k in self._candidates(key)]))
+
+    def _find(self, key):
+        key = sstr.lift(key)
+        for k in self._candidates(key):
+            if sstr._decide(key._eq_at(0, tuple(k))):
+                return k
+        return None
+
+    def __getitem__(self, key):
+        if not _symbolic(key):
+            return dict.__getitem__(self, key)
+        k = self._find(key)
+        if k is None:
+            raise KeyError(key)
+        return dict.__getitem__(self, k)
+
+    def get(self, key, default=None):
+        if not _symbolic(key):
+            return dict.get(self, key, default)
+        k = self._find(key)
+        return default if k is None else dict.__getitem__(self, k)
+
+    def _refuse(self, key, *a, **kw):
+        if _symbolic(key):
+            raise HarnessError('writing a symbolic key into the term map is not modelled')
+
+    def __setitem__(self, key, value):
+        self._refuse(key)
+        dict.__setitem__(self, key, value)
+
+    def __delitem__(self, key):
+        self._refuse(key)
+        dict.__delitem__(self, key)
+
+    def setdefault(self, key, default=None):
+        self._refuse(key)
+        return dict.setdefault(self, key, default)
+
+    def pop(self, key, *a):
+        self._refuse(key)
+        return dict.pop(self, key, *a)
 
 
 def phrase_ci_in(phrase, hay: str):
-    """reference: `phrase` occurs in `hay` ignoring letter case. symbolic -> SBool;
-    concrete -> bool"""
-    if isinstance(phrase, SPhrase):
-        r = phrase.lower().occurs_in(hay.lower())
-        return SBool(z3.BoolVal(r) if isinstance(r, bool) else r)
+    """reference: `phrase` occurs in `hay` ignoring letter case.  symbolic -> bool | SBool
+    (never forks); concrete -> bool"""
+    if isinstance(phrase, sstr.SStr):
+        h = sstr.SStr(tuple(hay.lower()))
+        pc = sstr._chars(phrase.lower())
+        return sstr._sb(sstr._or([h._eq_at(i, pc) for i in range(len(h) - len(pc) + 1)]))
     return phrase.lower() in hay.lower()
-
-
-def const_phrase(text: str, alphabet: Alphabet) -> SPhrase:
-    """an SPhrase with constant characters (prelude validation)"""
-    chars = []
-    for ch in text:
-        k, up = alphabet.index[ch]
-        chars.append((z3.IntVal(k), up))
-    return SPhrase(chars, alphabet)
